@@ -10,9 +10,19 @@ func init() {
 		"C13": {"(S2) the EPIC MAC library keeps nothing between calls: no function of pkg/experimental/epic stores into, publishes the address of, or calls a method on a package-level variable; the zero IV is the one listed read-only global."},
 		"C21": {"(P2, engine E9) PacketAuthSPI.Type() depends on input bit 17 only and is ASHost/HostHost for T=0/1, Direction() depends on bit 16 only and is SenderSide/ReceiverSide for D=0/1, DRKeyProto() is bits 0..15 in place: bit dependence analysis, then folding at both values of the one bit (the whole truth table)."},
 		"C22": {"(R2) the router that generates an SCMP reply owes the accumulator update of its own hop on the segment the reply leaves on: info and hop field for the update are selected after the cross-over revert (C10's reversal rule)."},
-		"C24": {"(F1) chains fetched from a remote server are accepted only if, for every chain, the subject ISD-AS equals the queried one, the subject key id equals the queried one and the leaf validity covers the queried validity (or none was queried); the gRPC and the connect fetcher return chains only behind that check."},
+		"C24": {"(F1) chains fetched from a remote server are accepted only if, for every chain, the subject ISD-AS equals the queried one, the subject key id equals the queried one and the leaf validity covers the queried validity (or none was queried); the gRPC and the connect fetcher return chains only behind that check.",
+			"(K1) Signer.Sign writes and Verifier.Verify reads the verification key id member for member."},
 		"C25": {"(U1) a topology reload replaces every attribute of a surviving interface except RemoteID (link type and neighbour included): member-wise summary of Interface.updateTopoInfo; Interfaces.Update calls it for every surviving interface."},
 		"C28": {"(D0) every construction is a candidate for 'the one that expires last is kept': all segments of the three lists enter the graph under their own type, and Combine hands the lists to newDMG as they came (shared with C29 S1)."},
+		"C30": {"(X2) every hop field of a combined path is copied, all four members (ExpTime included), from one input hop field - the regular hop entry, or for a peering hop the peer entry: the expiry the pather filters on is the expiry of the hops that are in the path (C28's provenance rule)."},
+		"C31": {"(X1) RevInfo.Expiration/Timestamp/TTL and the module helpers they call compute on 64-bit values only (no +,-,*,<< below 64 bits, no narrowing conversion), and each result is computed from its raw members: 'for arbitrary lifetimes' includes those whose end crosses 2^32 seconds."},
+		"C32": {"(U1) uniqueSubject (TRC.Validate) and certMap.find (validateRegular, detectNewVoters) compare subjects with the same function, equalName(x.Subject, y.Subject), and consult no other representation of the name; equal subjects are fail-stop in uniqueSubject."},
+		"C34": {"(K1) the SCION certificate constraints, as clean-exit obligations over the error-collecting validators: generalValidation, commonCAValidation (incl. pathLen == the given value, a missing constraint is not accepted), validateAS, validateCA (pathLen 0), validateRoot (pathLen 1, id-kp-root)."},
+		"C35": {"(V1) 'verified' is SignedTRC.Verify: its dispatch, the update verification and the all-required-certificates-signed check with its cardinality comparison (C32 G1-G3 borrowed)."},
+		"C36": {"(K1) Signer.Sign writes and Verifier.Verify reads the verification key id member for member (IsdAs, TrcBase, TrcSerial, SubjectKeyId)."},
+		"C37": {"(C1) 'that chain verifies' is cppki.VerifyChain: chain validation, x509 verification at the given time against the TRC's root pool, certificate constraints (C34 V1, V2, K1 borrowed)."},
+		"C38": {"(H2) the optional header timestamp is encoded as present exactly when the Go time is non-zero and decoded as non-zero exactly when the sub-message is present."},
+		"C39": {"(Q1) in the three DRKey sqlite back ends every placeholder of every statement is bound to the member its column holds (statement text and call arguments are both read from the source)."},
 	} {
 		extraExplain[k] = append(extraExplain[k], v...)
 	}
